@@ -12,7 +12,7 @@ RULE = ('class selection: every feasible path of the product (real ARM decoder ;
         'under different machine states and through a recording proxy; plus uniformly random words, words generated from every '
         'reference row (register pools, structured register lists, corner immediates), words one fixed bit away from a word of '
         'another row, pairs of free bits per product path; a third of these after the same number has been decoded in the '
-        'OTHER instruction set on the same processor object (history independence). field-product sweep: per reference row ALL values of the narrow fields x corner values of the wide ones x registers {0,1,SP,LR,PC}; decode through two real steps of the same word from states that differ in the carry flag, compared with a direct decode. non-trivial = a '
+        'OTHER instruction set on the same processor object (history independence). field-product sweep: per reference row ALL values of the narrow fields x corner values of the wide ones x registers {0,1,SP,LR,PC}; decode through two real steps of the same word from states that differ in the carry flag (and in data endianness: the stepped class and operands must be those of a direct decode of the word in the same state). non-trivial = a '
         'defined instruction whose operands were compared; distinct = (row, product path, IT position)')
 ASSUMPTIONS = ['vf/ref/spec_arm.py transcribes the ARM encoding tables (A5) and per-instruction decode pseudocode (A8)',
                'decoders reach the instruction word only through substring/bit_at/chain/bit_count (else the path is opaque)',
